@@ -42,11 +42,15 @@ def driver_path():
     return os.path.join(LEAN, ".lake", "build", "bin", "driver")
 
 
-FORBIDDEN = ["sorry", "admit", "native_decide", "implemented_by", "unsafe ", "maxHeartbeats 0"]
+FORBIDDEN_RE = [
+    (r"\bsorry\b", "sorry"), (r"\badmit\b", "admit"), (r"\bnative_decide\b", "native_decide"),
+    (r"\bimplemented_by\b", "implemented_by"), (r"\bunsafe\s+(def|instance|theorem|inductive|structure|abbrev|opaque|axiom)\b", "unsafe decl"),
+    (r"maxHeartbeats\s+0\b", "maxHeartbeats 0"), (r"^\s*(private\s+|protected\s+)?axiom\s", "axiom"), (r"\bextern\s+\"", "extern"),
+]
 
 
 def strip_comments(src):
-    """remove Lean block comments (nested) and line comments"""
+    """remove Lean block comments (nested), line comments and string literals"""
     out = []
     i = 0
     depth = 0
@@ -59,10 +63,18 @@ def strip_comments(src):
             depth -= 1
             i += 2
         elif depth > 0:
+            if src[i] == "\n":
+                out.append("\n")
             i += 1
         elif src.startswith("--", i):
             while i < n and src[i] != "\n":
                 i += 1
+        elif src[i] == '"':
+            i += 1
+            while i < n and src[i] != '"':
+                i += 2 if src[i] == "\\" else 1
+            i += 1
+            out.append('""')
         else:
             out.append(src[i])
             i += 1
@@ -70,7 +82,10 @@ def strip_comments(src):
 
 
 def grep_forbidden():
-    """scan every Lean source of the project for forbidden constructs outside comments"""
+    """scan every hand-written Lean source of the project for forbidden constructs outside comments
+    and string literals (the generated fact table contains only data and is compiled by the kernel
+    like everything else; it is scanned too, after string removal)"""
+    import re
     hits = []
     for dp, dn, fn in os.walk(LEAN):
         if ".lake" in dp:
@@ -81,11 +96,9 @@ def grep_forbidden():
             p = os.path.join(dp, f)
             code = strip_comments(open(p).read())
             for ln, line in enumerate(code.split("\n"), 1):
-                for w in FORBIDDEN:
-                    if w in line:
-                        hits.append(f"{os.path.relpath(p, LEAN)}: {w.strip()}: {line.strip()[:100]}")
-                if line.lstrip().startswith("axiom "):
-                    hits.append(f"{os.path.relpath(p, LEAN)}: axiom: {line.strip()[:100]}")
+                for rx, name in FORBIDDEN_RE:
+                    if re.search(rx, line):
+                        hits.append(f"{os.path.relpath(p, LEAN)}:{ln}: {name}: {line.strip()[:100]}")
     return hits
 
 
@@ -350,3 +363,67 @@ def hexbytes(b):
 
 def keyhex(k):
     return " ".join(f"{x:x}" for x in k)
+
+
+# ------------------------------------------------------------------------------------------------
+# Miri cross-target runner (real source of aarch64.rs / big-endian / 32-bit portable path)
+# ------------------------------------------------------------------------------------------------
+
+MIRI_TARGETS = {
+    "aarch64": "aarch64-unknown-linux-gnu",
+    "s390x": "s390x-unknown-linux-gnu",
+    "powerpc": "powerpc-unknown-linux-gnu",
+    "i686": "i686-unknown-linux-gnu",
+}
+
+
+def run_miri(target_key, cases, workdir, tag, shards=4, timeout=3600, no_std=False):
+    """execute the cases under `cargo +nightly miri run --target ...` on the working-tree source.
+    Returns (per-case outputs, crashed list, info dict or None)."""
+    ensure_repo_link()
+    os.makedirs(workdir, exist_ok=True)
+    cdir = os.path.join(ROOT, "harness", "mirirun")
+    lock = os.path.join(cdir, "Cargo.lock")
+    if not os.path.exists(lock):
+        shutil.copy(os.path.join(REPO, "Cargo.lock"), lock)
+    n = len(cases)
+    shards = max(1, min(shards, n))
+    idx = [list(range(k, n, shards)) for k in range(shards)]
+    target = MIRI_TARGETS[target_key]
+
+    def one(k):
+        p = os.path.join(workdir, f"{tag}.miri.{k}.ops")
+        write_ops([cases[i] for i in idx[k]], p)
+        env = {"OPS_FILE": p, "CARGO_TARGET_DIR": os.path.join(BUILD, f"t-miri-{target_key}-{k}"),
+               "MIRIFLAGS": "-Zmiri-disable-isolation"}
+        cmd = ["cargo", "+nightly", "miri", "run", "--offline", "-q", "--target", target]
+        if no_std:
+            cmd.append("--no-default-features")
+        return sh(cmd, cwd=cdir, env=env, timeout=timeout)
+
+    outs = [None] * n
+    crashed = []
+    info = None
+    with cf.ThreadPoolExecutor(max_workers=shards) as ex:
+        for k, (rc, out, err) in enumerate(ex.map(one, range(shards))):
+            first = out.split("\n", 1)[0]
+            if first.startswith("cfg "):
+                d = {}
+                for tok in first.split()[1:]:
+                    a, b = tok.split("=")
+                    d[a] = b
+                d["_line"] = first
+                info = d
+            per = split_outputs(out, len(idx[k]))
+            for j, i in enumerate(idx[k]):
+                outs[i] = per[j]
+            if rc != 0:
+                crashed.append((k, rc, err[-3000:]))
+    return outs, crashed, info
+
+
+def miri_available(target_key):
+    """is the Miri sysroot for the target buildable/available? (cached result per process)"""
+    rc, out, err = sh(["cargo", "+nightly", "miri", "setup", "--target", MIRI_TARGETS[target_key]], cwd=os.path.join(ROOT, "harness", "mirirun"),
+                      timeout=1800)
+    return rc == 0
